@@ -200,7 +200,7 @@ def closure_spans(b):
         t = toks[i]
         if t.kind == "punct" and t.text == "|":
             prev = toks[i - 1] if i > 0 else None
-            starts = prev is None or (prev.kind == "punct" and prev.text in "(,=:{;[") or (prev.kind == "id" and prev.text in ("move", "return"))
+            starts = prev is None or (prev.kind == "punct" and prev.text in "(,=:{;[") or (prev.kind == "id" and prev.text in ("move", "return", "mut"))
             if starts:
                 # params until next '|' at depth 0
                 j = i + 1
@@ -549,6 +549,27 @@ def lift_closure(text, name, captures, where, free=False, generics=""):
     return parent, lifted
 
 
+def lift_inline_closure(text, ordinal, name, params, captures, where):
+    """R25 (inline form): the ORDINAL-th closure of the function, written inline as an argument (`&mut |a, b| { BODY }`),
+    becomes the function `fn verif_closure_NAME(CAPTURE_PARAMS, PARAMS) { BODY }` (body verbatim). The closure's
+    untyped parameter list must be the names of `params` in order (checked); the parameter types and the captured
+    variables are listed in the unit. Only the lifted function is emitted; the enclosing function is not."""
+    sig, body = rustlex.fn_parts(text)
+    spans = closure_spans(body)
+    if ordinal > len(spans):
+        raise Undecided("%s: R25 closure #%d not found" % (where, ordinal))
+    ps, pe, bs, be, is_block = spans[ordinal - 1]
+    if not is_block:
+        raise Undecided("%s: R25 closure #%d: body is not a block" % (where, ordinal))
+    got = [x.strip() for x in body[ps + 1:pe - 1].split(",") if x.strip()]
+    want = [x.split(":")[0].strip() for x in params]
+    if got != want:
+        raise Undecided("%s: R25 closure #%d: parameters %r differ from the unit's %r" % (where, ordinal, got, want))
+    cap_params = ", ".join("%s: %s" % (c[0], c[1]) for c in captures)
+    allp = ", ".join([x for x in [cap_params] + list(params) if x])
+    return "fn verif_closure_%s(%s)\n%s\n" % (name, allp, body[bs:be])
+
+
 def extract_fn_text(fn):
     sf = source(fn.file)
     it = sf.find("fn", fn.name, impl=fn.impl, occurrence=fn.occurrence)
@@ -556,6 +577,9 @@ def extract_fn_text(fn):
         raise Undecided("item not found: fn %s (impl %s) in %s" % (fn.name, fn.impl, fn.file))
     text = sf.text[it.start:it.end]
     lift = getattr(fn, "lift", None)
+    if lift and "ordinal" in lift:
+        text = lift_inline_closure(text, lift["ordinal"], lift["closure"], lift["params"], lift["captures"], "%s::%s" % (fn.file, fn.key))
+        return sf, it, text
     if lift:
         parent, lifted = lift_closure(text, lift["closure"], lift["captures"], "%s::%s" % (fn.file, fn.key),
                                       free=lift.get("free", False), generics=lift.get("generics", ""))
